@@ -1,4 +1,5 @@
 import GV.Model.MsgCodec
+import GV.Model.MsgWrappers
 import GV.Proofs.MsgCodec
 import GV.Gen.MsgShapes
 /-!
@@ -11,7 +12,7 @@ theorems are generic in the shape, so they cover every message of the
 regenerated table `GV.Gen.MsgShapes.table` (and any message added later).
 -/
 namespace GV.Props.C04
-open GV.CborT GV.Model.MsgCodec GV.Proofs.MsgCodec
+open GV.CborT GV.Model.MsgCodec GV.Proofs.MsgCodec GV.Model.MsgWrappers
 
 /-- Full statement (what the property demands of a decoder `d` for shape `s`):
     every well-typed value round-trips, and only trees that have the shape the
@@ -144,5 +145,95 @@ theorem table_ids_distinct :
 /-- Non-vacuity: RollBackward `[3, [42, h'aabb'], [[], 7]]`. -/
 example : hasShape (.struct [.uint 8, .point, .struct [.point, .uint 64]])
     (.s [.u 3, .s [.u 42, .h [0xaa, 0xbb]], .s [.s [.u 0, .h []], .u 7]]) = true := by decide
+
+
+/-! ### chain-sync RollForward wrappers (hand model GV.Model.MsgWrappers) -/
+
+/-- the strict reading of a `cbor.Tag` destination demands tag number 24 -/
+theorem tagBytes_strict (t : Cbor) (n : Nat) (b : Bytes) (h : decTagBytes Mode.strict t = some (n, b)) :
+    n = 24 ∧ ∃ w x, t = .tag w 24 x ∧ strPayload false x = some b := by
+  unfold decTagBytes at h
+  simp only [Mode.strict, Bool.false_eq_true, ↓reduceIte, Bool.false_or] at h
+  split at h
+  · rename_i w n' x
+    split at h
+    · rename_i b' hp
+      split at h
+      · rename_i hn
+        simp only [beq_iff_eq] at hn
+        simp only [Option.some.injEq, Prod.mk.injEq] at h
+        obtain ⟨rfl, rfl⟩ := h
+        exact ⟨hn, w, x, by rw [hn], hp⟩
+      · cases h
+    · cases h
+  · cases h
+
+/-- RollForward (NtC), strict reading: exactly three items `[type, #6.24(bytes), tip]`, the bytes
+    themselves a well-formed `[blockType, block]`. -/
+theorem rollForwardNtC_strict (t : Cbor) (v : Val) (h : decRollForwardNtC Mode.strict t = some v) :
+    ∃ ty w x tip content, items t = some [ty, .tag w 24 x, tip] ∧ strPayload false x = some content ∧
+      innerOk Mode.strict (.struct [.uint 64, .raw]) content = true := by
+  unfold decRollForwardNtC structItems at h
+  simp only [Mode.strict, Bool.false_eq_true, ↓reduceIte] at h
+  split at h
+  · rename_i ty wb tip hit
+    split at h
+    · rename_i vty n content vtip h1 h2 h3
+      obtain ⟨_, w, x, rfl, hp⟩ := tagBytes_strict wb n content h2
+      by_cases hin : innerOk Mode.strict (.struct [.uint 64, .raw]) content = true
+      · exact ⟨ty, w, x, tip, content, hit, hp, hin⟩
+      · simp only [Mode.strict] at hin
+        simp only [hin] at h
+        cases h
+    · cases h
+  · cases h
+
+/-- the code as it is does not look at the tag number (recorded under the class `tag-stripped`):
+    `[2, 1000(h'820100'), [[], 0]]` is a RollForward -/
+theorem rollForwardNtC_any_tag :
+    (decRollForwardNtC Mode.lax (.arr .w0 [.int false .w0 2, .tag .w2 1000 (.str false .w0 [0x82, 0x01, 0x00]),
+        .arr .w0 [.arr .w0 [], .int false .w0 0]])).map render = some "(2,(1000,h820100),((0,h),0))" ∧
+    (decRollForwardNtC Mode.strict (.arr .w0 [.int false .w0 2, .tag .w2 1000 (.str false .w0 [0x82, 0x01, 0x00]),
+        .arr .w0 [.arr .w0 [], .int false .w0 0]])).isNone = true ∧
+    (decRollForwardNtC Mode.strict (.arr .w0 [.int false .w0 2, .tag .w1 24 (.str false .w0 [0x82, 0x01, 0x00]),
+        .arr .w0 [.arr .w0 [], .int false .w0 0]])).map render = some "(2,(24,h820100),((0,h),0))" := by
+  decide
+
+
+
+
+/-- local-tx-monitor ReplyNextTx: the decoder as found dropped extra items of the message and of the
+    transaction wrapper (`[6, [1, tx], 0]`, `[6, [1, tx, 0]]`); after the `fix:` commit both are rejected. -/
+theorem replyNextTx_witness :
+    (decReplyNextTx true Mode.lax (.arr .w0 [.int false .w0 6,
+        .arr .w0 [.int false .w0 1, .tag .w1 24 (.str false .w0 [1])], .int false .w0 0])).map render
+      = some "(6,(1,h01))" ∧
+    (decReplyNextTx false Mode.lax (.arr .w0 [.int false .w0 6,
+        .arr .w0 [.int false .w0 1, .tag .w1 24 (.str false .w0 [1])], .int false .w0 0])).isNone = true ∧
+    (decReplyNextTx true Mode.lax (.arr .w0 [.int false .w0 6,
+        .arr .w0 [.int false .w0 1, .tag .w1 24 (.str false .w0 [1]), .int false .w0 0]])).map render
+      = some "(6,(1,h01))" ∧
+    (decReplyNextTx false Mode.lax (.arr .w0 [.int false .w0 6,
+        .arr .w0 [.int false .w0 1, .tag .w1 24 (.str false .w0 [1]), .int false .w0 0]])).isNone = true ∧
+    (decReplyNextTx false Mode.lax (.arr .w0 [.int false .w0 6,
+        .arr .w0 [.int false .w0 1, .tag .w1 24 (.str false .w0 [1])]])).map render = some "(6,(1,h01))" := by
+  decide
+
+/-- after the repair: one or two items, and a two-item transaction wrapper -/
+theorem replyNextTx_arity (m : Mode) (t : Cbor) (v : Val) (h : decReplyNextTx false m t = some v) :
+    ∃ xs, structItems m t = some xs ∧ (xs.length = 1 ∨ xs.length = 2) := by
+  unfold decReplyNextTx at h
+  split at h
+  · rename_i ty rest hit
+    refine ⟨ty :: rest, hit, ?_⟩
+    split at h
+    · cases h
+    · split at h
+      · left; rfl
+      · rename_i w more
+        cases more with
+        | nil => right; rfl
+        | cons a b => simp at h
+  · cases h
 
 end GV.Props.C04
